@@ -493,9 +493,8 @@ def r9_range_constants_exact(ctx, rule="C06.R9"):
     for f in sorted(prog.fns.values(), key=lambda f: f.id):
         if f.crate not in ("rusty_linter", "rusty_variant", "rusty_basic") or f.kind == "const":
             continue
-        for b, blk in enumerate(f.body.blocks):
-            if f.body.is_cleanup(b):
-                continue
+        # promoted constants included: `(MIN as f32)..=(MAX as f32)` is built at compile time
+        for blk in [bl for body in [f.body] + list(f.promoted) for bl in body.blocks if not bl.get("c")]:
             for st in blk["s"]:
                 r = st.get("r", {})
                 if st["k"] != "assign" or r.get("k") != "cast" or r.get("ck") != "IntToFloat":
